@@ -578,7 +578,12 @@ def np_text(x):
 
 def np_text_m(data, mask):
     if data.ndim == 0:
-        if mask is not None and bool(mask):
+        if mask is not None and mask.dtype.names is not None:
+            # structured mask (one flag per field): a record whose fields are all masked is a missing record
+            flags = [bool(mask[n]) for n in mask.dtype.names]
+            if flags and all(flags):
+                return 'none'
+        elif mask is not None and bool(mask):
             return 'none'
         if data.dtype.names is not None:
             return '(r' + ''.join(' (%s %s)' % (n, np_text_m(data[n], None if mask is None or mask.dtype.names is None else mask[n]))
@@ -589,8 +594,6 @@ def np_text_m(data, mask):
         if data.dtype.kind in 'Mm':
             return value_text(v)
         return value_text(v.item())
-    if mask is not None and mask.dtype.names is not None:
-        mask = None   # structured masks are per field; not produced by to_numpy
     return '(l' + ''.join(' ' + np_text_m(data[i], None if mask is None else mask[i]) for i in range(data.shape[0])) + ')'
 
 
